@@ -15,7 +15,8 @@ def handlers : List (String × (List String → Option String)) :=
     ("constrain", Alloc.handle), ("hardcon", Alloc.handleHardcon), ("package", Alloc.handlePackageKind),
     ("asd", Protocol.handle), ("objective", Protocol.Objective.handle), ("calobj", Protocol.Objective.handleCal),
     ("bracket", Protocol.Bracket.handle), ("skeleton", Protocol.Skeletons.handle),
-    ("trows", Timed.handleRows), ("tkey", Timed.handleKey) ]
+    ("trows", Timed.handleRows), ("tkey", Timed.handleKey),
+    ("init-table", InitTable.handleTable), ("init-untable", InitTable.handleUntable), ("init-apply", InitTable.handleApply), ("init-save", InitTable.handleSave) ]
 
 /-- One request per line: `<kind> <args…>`; one canonical reply per line. -/
 def dispatch (line : String) : String :=
